@@ -52,6 +52,18 @@ def observe(binp, src, work, case, flags, facts, tag, extra_args=()):
     args = list(flags) + ["./" + pkgrel] + list(extra_args)
     if "uptodate-second-run" in case["what"]:
         runs.goderive(binp, root, ["./" + pkgrel], timeout=60)
+    if case.get("history"):
+        # an earlier state of the sources: generate for it first (no flags), then put the current files back
+        current = {}
+        for fn, old in case["history"].items():
+            fp = os.path.join(pkg, fn)
+            current[fn] = open(fp, "rb").read()
+            open(fp, "wb").write(old.encode())
+        h = runs.goderive(binp, root, ["./" + pkgrel], timeout=60)
+        for fn, cur in current.items():
+            open(os.path.join(pkg, fn), "wb").write(cur)
+        if h["rc"] != 0:
+            raise common.CheckError("history step of %s failed: %s" % (case["dir"], h["out"][-300:]))
     orig = os.path.join(work, "%s-%s-orig" % (case["dir"], tag))
     shutil.copytree(pkg, orig, symlinks=True)
     before = runs.snapshot(root)
@@ -104,6 +116,14 @@ def observe(binp, src, work, case, flags, facts, tag, extra_args=()):
     if may_rename and not consistent and not any(c.startswith("C10/rewrite-not-go") for c, _ in problems):
         problems.append(("C10/renames-vs-log", "identifiers changed in the files %s differ from goderive's own log lines %s" % (
             dict(seen), dict(logged))))
+    # ---- a run whose registration fails must not leave a user file rewritten (its calls would name functions that were
+    # never generated). Files with syntax errors: refused and untouched, or rewritten with nothing lost (token-level oracle)
+    res["failed_after_rewrite"] = bool(res["rewritten"] and r["rc"] != 0 and may_rename)
+    if res["rewritten"] and may_rename and r["rc"] != 0 and re.search(r"Add Error|ambigious|conflicting|cannot rename", r["out"]):
+        # (a run that fails LATER — generator error, I/O error on derived.gen.go — after a faithful rewrite is only counted)
+        problems.append(("C10/registration-failed-after-rewriting-a-file",
+                         "exit %s, but %s %s rewritten (%s): %s" % (r["rc"], ", ".join(os.path.join(pkgrel, f) for f in res["rewritten"]),
+                                                                  "was" if len(res["rewritten"]) == 1 else "were", res["renames"], r["out"].strip()[-200:])))
     # ---- snapshot: everything else must be untouched
     allowed_user = set(os.path.join(pkgrel, f) for f in res["rewritten"]) if may_rename else set()
     for kind, path in diff:
@@ -201,6 +221,7 @@ def run(rep):
         rep.cov["disagreements_checked"] = len(jobs)
         rep.cov["flag_outcome_matrix"] = dict(matrix)
         rep.cov["files_rewritten_and_checked_against_oracle"] = rewrites
+        rep.cov["runs_that_failed_later_after_a_faithful_rewrite"] = sum(1 for r in results if r.get("failed_after_rewrite"))
         rep.cov["renamings_by_length"] = dict(lengths)
         need = {"success", "generator-error", "load-error"}
         got = set(k.split(" | ")[1] for k in matrix)
